@@ -41,7 +41,13 @@ def body_of(i, j):
 
 def app_script(rng, i, j):
     body = body_of(i, j)
-    style = rng.randrange(4)
+    style = rng.randrange(6)
+    # a request that FAILS is a request the worker has handled all the same: it counts towards max_requests
+    if style == 4:
+        return {"acts": [("raise", ("Exception", "the application failed", False, False))], "file": None}, None
+    if style == 5:
+        return {"acts": [("start", 200, None), ("return",), ("write", body[:3]), ("raise", ("Exception", "iterable failed", False, False))],
+                "file": None}, None
     if style == 0:
         return {"acts": [("start", 200, len(body)), ("return",), ("write", body)], "file": None}, body
     if style == 1:
@@ -300,7 +306,7 @@ def judge(R):
             fails.append(("request-dropped", "step %d (nr=%d, limit=%d, alive=%s): a parsed request was not handed to the application; "
                           "the client received %r" % (k, nr, limit, s["alive_before"], s["wire"][:80])))
         # answered in full: the new bytes on this connection are exactly one complete response with the expected body
-        if s["n_app"]:
+        if s["n_app"] and s["body"] is not None:          # (body None: the application was scripted to fail)
             resps, leftover, bad = L.split_wire(s["wire"], [False])
             if not (len(resps) == 1 and not leftover and resps[0]["complete"] and resps[0]["status"] == 200 and resps[0]["body"] == s["body"]):
                 fails.append(("not-answered-in-full", "step %d (nr=%d, limit=%d): response %r" % (k, nr, limit, s["wire"][:160])))
